@@ -17,11 +17,13 @@ CHECKS = {
          "AckOnce, TriggerAckLast (no successor publish / terminal record / terminal notification after the trigger's ack), CarrierExists at every frame end, "
          "DrainedD0/D1 at quiescence, on every run incl. each handler's error paths.", "7 C03"),
  "C05": ("model_checking", "trace validation by TLC of fan-out runs under all interleavings",
-         "ItemOnce, JoinAfterAll, InFlightBounded evaluated at every publish / frame end of Parallel (1-3 branches) and Map (0-4 items x MaxConcurrency 0..len+1, nesting 2) runs.", "7 C05"),
+         "ItemOnce, JoinAfterAll, InFlightBounded evaluated at every publish / frame end of Parallel (1-3 branches) and Map (0-4 items x MaxConcurrency 0..len+1, nesting 2, Map of Maps, in-branch Catch) runs; "
+         "for plain machines the terminal output must equal the positional join the States Language prescribes (expected_output), whatever the schedule.", "7 C05"),
  "C06": ("model_checking", "trace validation by TLC of failing fan-outs under all interleavings",
          "FanOutFailsOnce, SiblingsFrozen, SiblingsCancelled, NoLateEffects plus the C02/C03/C09 clauses on every schedule of the failure family (failure subsets, Catch/Retry, nesting, timeouts).", "7 C06"),
  "C09": ("model_checking", "trace validation by TLC of the history store after every step",
-         "HistoryWellFormed (ids, previousEventId, timestamps, first event), NothingAfterTerminal, HistAgreesWithRecord checked at every append and every record change of every run incl. the repository's own demo machines.", "7 C09"),
+         "HistoryWellFormed (ids, previousEventId, timestamps, first event), ExitFollowsEnter, NothingAfterTerminal, HistAgreesWithRecord checked at every append and every record change of every run incl. the repository's own demo machines, "
+         "a scaled history-quota run and Map-level retries; GetExecutionHistory in both orders through the real API.", "7 C09"),
  "C11": ("model_checking", "trace validation by TLC: record vs notification vs history at every step",
          "NotifShape (CloudWatch keys, subject, integer millisecond dates), ViewsAgree (first stable record after a notification equals its detail), NotifiedOncePerChange, PublishDoesNotAlterRecord (record keeps epoch seconds).", "7 C11"),
 }
